@@ -610,9 +610,14 @@ def slStreamFrame (r : R) (fr : Frame) : R :=
     | none => u.1
     | some uid => knownStream u.1 uid fr wasClosing
 
-/-- SETTINGS_HEADER_TABLE_SIZE, when the frame carries it, is applied to the encoder by the stream loop -/
+/-- the SETTINGS_HEADER_TABLE_SIZE values of one frame, in the order they appear (a setting may occur more than once) -/
+def tableSizes (st : Frame.SettingsVal) : List Nat :=
+  (st.pairs.filter fun p => p.1 == Gen.c_HeaderTableSize).map (·.2)
+
+/-- every SETTINGS_HEADER_TABLE_SIZE the frame carries is applied to the encoder by the stream loop, in order: the walk
+over `fr.payload` in `handleStreams` (a frame with "0, then 4096" used to reach the encoder as 4096 alone) -/
 def applyTableSize (r : R) (st : Frame.SettingsVal) : R :=
-  if st.hasTableSize then { r with s := { r.s with enc := r.s.enc.setMax st.tableSize } } else r
+  { r with s := { r.s with enc := (tableSizes st).foldl Hpack.EncState.setMax r.s.enc } }
 
 /-- the check before `continue` in the connection-level branch: the flush may have finished the last
 stream a GOAWAY was waiting for -/
@@ -684,12 +689,16 @@ def contCheck (r : R) (fr : Frame) : R × Bool :=
     ({ r with s := { r.s with expectCont := fr.stream } }, false)
   else (r, false)
 
+/-- the scripted peer's own decoder follows what the peer announces, value by value (srv.go `noteSettings`): the value
+is the most it will accept in a size update, and announcing less than before shrinks its table at once — after
+"0, then 4096" the table is empty and stays at 0 octets until the server's encoder sends a size update -/
+def peerAnnounce (d : Hpack.DecState) (v : Nat) : Hpack.DecState :=
+  if v < d.limit then { d with limit := v, maxSize := v, dyn := Hpack.evict d.dyn v } else { d with limit := v }
+
 /-- `handleSettings`: remember the peer's values, resize the encoder, acknowledge -/
 def handleSettings (r : R) (st : Frame.SettingsVal) : R :=
   let announced := (st.pairs.filter fun p => p.1 == Gen.c_HeaderTableSize).getLast?
-  let pd := match announced with
-    | some (_, v) => { r.s.peerDec with limit := v }
-    | none => r.s.peerDec
+  let pd := (tableSizes st).foldl peerAnnounce r.s.peerDec
   -- the frame is applied on top of the stored settings: what it does not mention persists
   let ts := match announced with
     | some (_, v) => v
@@ -768,8 +777,11 @@ def step (s : Srv) (ev : Event) : Srv × List Out :=
 
 /-- the handshake: SETTINGS then WINDOW_UPDATE -/
 def initOuts (s : Srv) : List Out :=
+  -- `sc.st.Reset()`, then `SetMaxWindowSize`, `SetMaxConcurrentStreams` (which mark their values as present) and, with a
+  -- limit configured, `SetMaxHeaderListSize`; `SetPush` is never called, so no ENABLE_PUSH goes out
   let st : Frame.SettingsVal := { windowSize := Gen.c_serverMaxWindow, maxStreams := s.cfg.maxStreams,
-                                   headerSize := if s.cfg.maxHeaderList > 0 then s.cfg.maxHeaderList.toNat else 0 }
+                                   headerSize := if s.cfg.maxHeaderList > 0 then s.cfg.maxHeaderList.toNat else 0,
+                                   hasWindowSize := true, hasMaxStreams := true }
   let enc := Frame.settingsEncode st
   let rec pairs : Bytes → List (Nat × Nat)
     | k0 :: k1 :: v0 :: v1 :: v2 :: v3 :: rest => (k0 * 256 + k1, be32 [v0, v1, v2, v3]) :: pairs rest
